@@ -34,6 +34,18 @@ CLAIMED["C12"] = dict(
          "inside the shared kana ending. Axioms: propext, Classical.choice, Quot.sound.",
     design="6/C12")
 
+CLAIMED["C10"] = dict(
+    engine="lean+corr_dic",
+    technique="Lean 4 proof of the print/parse round trip for all storable entries (induction over readings, stems and speech "
+              "lists; a three-valued symbolic run of the PEG, kernel-evaluated on all 116 printed names and lifted to every "
+              "continuation by soundness lemmas) + differential run against the real reader/writer",
+    text="C10_entry/C10_multi/C10_injective/C10_isolation/C10_file are proved for every kana reading, every stem without "
+         "blank/TAB and all 116 part-of-speech values, over grammar data re-extracted from dic_grammer.rs on every run; the "
+         "hand-written PEG model is tied to the code by running both on printed, multi-speech, corrupt lines and files.",
+    note="rust-peg semantics (ordered choice, greedy repetition, full-input match) are modelled, not verified; reader exercised "
+         "on valid UTF-8 only; short writes of Write::write outside the model. Axioms: propext, Classical.choice, Quot.sound.",
+    design="6/C10")
+
 NOT_YET = "machinery for this property is not built yet in this round (work in progress; see DESIGN.md section 9)"
 
 
